@@ -35,7 +35,7 @@ checks = {
    design="5/C06"),
  "C07": dict(
    text="Bounded symbolic model checking of the real client functions (Client.Get, blocks, headers, validate, receipts, logs, traces, Latest, Hash, eth.Block.Tx, eth.Logs.Add, eth.Bytes.Write) against an adversarial node cut at Client.do: every decoded number/hash/index/error code is a solver variable, structural corruptions are case-split under a budget; on acceptance z3 decides consecutive numbers, parent linkage, and that every reported log/receipt/trace is attached to the block and transaction it names; no panic on any answer.",
-   note="The JSON decoder is replaced by the R1 contract (harness/jrpc2/stub.go, same cut natively for replay). limit <= 3 (quick) / 4 (thorough); HTTP status and undecodable-body handling inside do() are outside (behind net/http and goccy).",
+   note="The JSON decoder is replaced by the R1 contract (harness/jrpc2/stub.go, same cut natively for replay). limit <= 3 (quick) / 4 (thorough); HTTP status, transport failure and undecodable body are decided on the real do() with its library calls cut (ZZ_C07_Do); what net/http and goccy themselves do with a given byte stream is outside.",
    technique="go/ssa symbolic execution -> SMT (z3) with a nondeterministic node stub; native replay with the same cut",
    design="5/C07"),
  "C08": dict(
